@@ -199,3 +199,11 @@ func (c *FakeConn) ResetCapture() {
 	c.captured = nil
 	c.mu.Unlock()
 }
+
+// Drained0 is Drained ignoring writes in progress: the inbound side alone (queue empty, everything
+// handed to the reader, reader back in ReadFrom).
+func (c *FakeConn) Drained0() bool {
+	c.mu.Lock()
+	defer c.mu.Unlock()
+	return len(c.queue) == 0 && c.delivered == c.injected && c.readEntries == c.delivered+1
+}
